@@ -238,6 +238,13 @@ theorem report51_all_ok : (report51).all (fun nb => nb.2) = true := by
     Field_sqrt_ratio_i_ok51,
     Field_invsqrt_ok51, Bool.and_self]
 
+/-- what one of these theorems says, unfolded (`EdwardsPoint + EdwardsPoint`, serial u64) -/
+example (ins : List (List Nat)) (h : EnvsIn ins (EdwardsPoint I51 ++ EdwardsPoint I51)) :
+    arunBody limbOps51 AlgEdwards.add.body (ins.map some) =
+      (arunBody limbOpsW51 AlgEdwards.add.body ins).map some ∧
+    AlgEdwards.add.run limbOps51 (ins.map some) = (AlgEdwards.add.run limbOpsW51 ins).map some ∧
+    EnvsIn (AlgEdwards.add.run limbOpsW51 ins) (EdwardsPoint I51) := Edwards_add_safe51 ins h
+
 /-! ## serial u32 backend: every formula is safe from / re-establishes the type invariants -/
 
 theorem Curve_ProjectivePoint_identity_safe26 : (sig_Curve_ProjectivePoint_identity I26).Safe B26 := Sig.safe_of_ok Curve_ProjectivePoint_identity_ok26
@@ -527,14 +534,19 @@ theorem exampleHistory51_typed : typeHist (sigs I51) exampleHistory51 [] =
 example : (runHistC B51 (sigs I51) exampleHistory51 []).isSome = true := by
   rw [(no_overflow_all_histories51 _ _ _ [] exampleHistory51_typed trivial).1]; rfl
 
-/-- the checker is not trivially `true`: it REJECTS a doubling whose inputs are unreduced sums on the u32 backend
-(`X + Y` would exceed the `b < 1.75` headroom of `square`), and the u32 `mul` with swapped headroom
-(a completed coordinate as SECOND operand of a product whose first operand is one too is fine, but a doubled
-completed coordinate is not) -/
+/-! ## the checker is not trivially `true` (and the u32 margins are fractions of a bit) -/
+
+/-- u32: a doubling whose inputs are unreduced sums is REJECTED (`X + Y` exceeds the `b < 1.75` headroom of `square`) -/
 example : check B26 AlgCurve.ProjectivePoint_double [I26.sum, I26.sum, I26.sum] (CompletedPoint I26) = false := by
   decide +kernel
+/-- u32: the `EdwardsPoint` invariant cannot be weakened to "one spare bit per limb": the addition is REJECTED
+(`Y + X` of the converted operand would be the SECOND operand of a product with `b = 2 > 1.75`) -/
+example : check B26 AlgEdwards.add (List.replicate 8 (l2625 1)) (List.replicate 4 (l2625 1)) = false := by
+  decide +kernel
+/-- u32: a `CompletedPoint` with coordinates twice the invariant is REJECTED by `as_extended` -/
 example : check B26 AlgCurve.CompletedPoint_as_extended (List.replicate 4 (l2625f 672 100)) (EdwardsPoint I26) = false := by
   decide +kernel
+/-- u64: limbs of 55 bits are REJECTED by `as_extended` (`debug_assert!(a[i] < 2^54)` of `mul`) -/
 example : check B51 AlgCurve.CompletedPoint_as_extended (List.replicate 4 (rep 5 (ub (2 ^ 55 - 1)))) (EdwardsPoint I51) = false := by
   decide +kernel
 
